@@ -33,10 +33,16 @@ def index_loops(func, collections=('phases', 'precipitateParameters', 'PBM', 'PB
         if not isinstance(n, ast.For):
             continue
         it = n.iter
-        cands = [it] + (list(it.args) if isinstance(it, ast.Call) and U.call_name(it) in ('zip', 'enumerate') else [])
+        cands, todo = [], [it]
+        while todo:         # enumerate(zip(a, b)) / zip(a, enumerate(b)): every sequence walked in parallel
+            x = todo.pop()
+            cands.append(x)
+            if isinstance(x, ast.Call) and U.call_name(x) in ('zip', 'enumerate'):
+                todo += list(x.args)
+        params = set(U.params(func))
         for a in cands:
             c = U.chain(a) if isinstance(a, (ast.Attribute, ast.Name)) else None
-            if c and c[-1] in collections and len(c) >= 2 and not any(n is o[0] for o in out):
+            if c and c[-1] in collections and (len(c) >= 2 or c[0] in params) and not any(n is o[0] for o in out):
                 idx = None
                 if isinstance(it, ast.Call) and U.call_name(it) == 'enumerate' and isinstance(n.target, ast.Tuple) and n.target.elts and isinstance(n.target.elts[0], ast.Name):
                     idx = n.target.elts[0].id
